@@ -1,5 +1,463 @@
-(* C08 - placeholder while the proofs are being written; replaced below. *)
-From Coq Require Import List.
-From PMS Require Import Model.Gateway.
-Theorem C08_placeholder : True. Proof. exact I. Qed.
-Print Assumptions C08_placeholder.
+(* C08 - withheld traffic reaches the sleeping node exactly once, in order.  Statements only.
+   Machine: Model/Gateway.v over the GENERATED tables and registry; oracles and clock universally
+   quantified; all five configurations (cfg_ok); both task flavours.  Proofs: Proofs/Sleep*.v.
+   Invariants Inv / QInv / CInv hold in every reachable state (C08_reachable_invariants). *)
+From Coq Require Import List NArith ZArith Bool String.
+From PMS Require Import Base.PyStr Base.PyInt Base.Exn Model.Codec Model.TableTypes Gen.Tables Model.Validate
+  Model.Oracles Model.Hex Model.Ota Model.Gateway Spec.SerialApi Proofs.ValidateProofs Proofs.GwInv
+  Proofs.SleepDefs Proofs.SleepFlush Proofs.SleepTrans Proofs.SleepLife Proofs.SleepProofs
+  Proofs.SleepExamples.
+Import ListNotations.
+Open Scope string_scope.
+Open Scope list_scope.
+Open Scope Z_scope.
+
+Theorem C08_reachable_invariants :
+  forall orc clock cf ops, cfg_ok cf -> Forall op_ok ops ->
+    let g := run orc clock (gw_init cf) ops in Inv orc g /\ QInv g /\ CInv g /\ g_cf g = cf.
+Proof. exact reachable_sleep_inv. Qed.
+
+(* ------------------------------------------------------------------ 1. the flush *)
+(* the strings of a flush: the withheld strings oldest first, then the set commands
+   desired_sets = encode of desired_msgs; membership in desired_msgs, both directions: a child (in
+   insertion order), a value type the node HAS REPORTED for it (in insertion order), a pending
+   desired value v: the message  node;child;set;0;value type;str(v) *)
+Theorem C08_flush_strings_def :
+  forall t nd, flush_strings t nd = n_queue nd ++ map encode (desired_msgs t (init_smart_sleep nd)).
+Proof. reflexivity. Qed.
+
+Theorem C08_desired_msgs_def :
+  forall t nd, desired_msgs t nd =
+    flat_map (fun kc =>
+      match zassoc (c_id (snd kc)) (n_new nd) with
+      | Some dv =>
+          flat_map (fun kv => match zassoc (fst kv) dv with
+                              | Some (Some v) => [mkMsg (n_id nd) (c_id (snd kc)) (vt_set t) 0 (fst kv) (py_str v)]
+                              | _ => []
+                              end) (c_values (snd kc))
+      | None => []
+      end) (n_children nd).
+Proof. reflexivity. Qed.
+
+Theorem C08_desired_msgs_membership :
+  forall t nd m, In m (desired_msgs t nd) <->
+    exists k ch vt x v, In (k, ch) (n_children nd) /\ In (vt, x) (c_values ch) /\
+                        desired nd (c_id ch) vt = Some v /\ m = set_msg_of t (n_id nd) (c_id ch) vt v.
+Proof. exact In_desired_msgs. Qed.
+
+(* flush_spec: for a known node in a state satisfying the invariants the flush returns Ok, and
+   the state afterwards is `flushed g nd`: the strings are handed to add_job_send in order (log
+   delta in the asyncio flavour, job queue suffix in the threaded flavour), the node's queue is
+   empty, every child has a slot, desired entries are NOT cleared, nothing else changed *)
+Theorem C08_flush_spec :
+  forall orc g k nd, Inv orc g -> QInv g -> get_node g k = Some nd ->
+    handle_smartsleep orc g nd = Ok (flushed g nd).
+Proof. exact flush_spec. Qed.
+
+Theorem C08_flushed_fields :
+  forall orc g k nd, Inv orc g -> get_node g k = Some nd ->
+    g_cf (flushed g nd) = g_cf g /\ g_ota (flushed g nd) = g_ota g /\ g_metric (flushed g nd) = g_metric g /\
+    g_dirty (flushed g nd) = g_dirty g /\
+    g_sensors (flushed g nd) = zset k (woken nd) (g_sensors g) /\
+    get_node (flushed g nd) k = Some (woken nd) /\
+    (forall k', k' <> k -> get_node (flushed g nd) k' = get_node g k') /\
+    (if cf_async (g_cf g)
+     then g_log (flushed g nd) = g_log g ++ map ESend (flush_strings (tab g) nd) /\ g_jobs (flushed g nd) = g_jobs g
+     else g_log (flushed g nd) = g_log g /\ g_jobs (flushed g nd) = g_jobs g ++ map JSend (flush_strings (tab g) nd)).
+Proof. exact flushed_fields. Qed.
+
+Theorem C08_woken_fields :
+  forall nd,
+    n_queue (woken nd) = [] /\ n_new (woken nd) = n_new (init_smart_sleep nd) /\
+    n_id (woken nd) = n_id nd /\ n_children (woken nd) = n_children nd /\ n_type (woken nd) = n_type nd /\
+    n_sk_name (woken nd) = n_sk_name nd /\ n_sk_ver (woken nd) = n_sk_ver nd /\ n_batt (woken nd) = n_batt nd /\
+    n_pver (woken nd) = n_pver nd /\ n_hb (woken nd) = n_hb nd /\ n_reboot (woken nd) = n_reboot nd /\
+    (forall c vt, desired (woken nd) c vt = desired nd c vt) /\
+    (forall c, zhas c (n_children nd) = true -> zhas c (n_new (woken nd)) = true) /\
+    (exists ext, n_new (woken nd) = n_new nd ++ ext /\ Forall (fun e => snd e = []) ext).
+Proof. exact woken_fields. Qed.
+
+(* the prefix-emitting flush of the model (what Python does when create_message raises in the
+   middle) and the exception-free one: they agree, and under the invariant neither raises *)
+Theorem C08_flush_children_rel :
+  forall orc g nd chs,
+    match flush_children orc g nd chs with
+    | Ok l => flush_children_pre orc g nd chs = (l, None)
+    | Raise e => exists pre, flush_children_pre orc g nd chs = (pre, Some e)
+    end.
+Proof. exact flush_children_rel. Qed.
+
+Theorem C08_flush_children_closed :
+  forall orc g nd chs,
+    Forall (fun cd => dv_ok orc (tab g) (n_id nd) (fst cd) (snd cd)) (n_new nd) ->
+    flush_children orc g nd chs = Ok (map encode (children_msgs (tab g) nd chs)) /\
+    flush_children_pre orc g nd chs = (map encode (children_msgs (tab g) nd chs), None).
+Proof. exact flush_children_closed_both. Qed.
+
+(* a wake-up announcement of a known node, through the dispatcher: never raises, no reply, the
+   state is the flushed one (2.0 / 2.1: plus the heartbeat attribute and the alert) ... *)
+Theorem C08_wake_logic :
+  forall orc clock g l m nd, cfg_ok (g_cf g) -> Inv orc g -> QInv g ->
+    decode l = Some m -> gvalidate orc g m = true -> wake_msg (tab g) m = true ->
+    get_node g (m_node m) = Some nd ->
+    exists h, sub_handler (tab g) (m_type m) (m_sub m) = Some h /\ (h = HHeartbeat \/ h = HPreSleep) /\
+              logic orc clock g l = Ok (after_wake h g m nd, None).
+Proof. exact wake_logic. Qed.
+
+(* ... and what leaves the gateway in that call is EXACTLY the withheld strings, each once, oldest
+   first, followed by the set commands *)
+Theorem C08_wake_outputs :
+  forall orc h g m nd k, Inv orc g -> get_node g k = Some nd -> (h = HHeartbeat \/ h = HPreSleep) ->
+    let g' := after_wake h g m nd in
+    (exists d, g_log g' = g_log g ++ d /\
+               sends_of d = if cf_async (g_cf g) then flush_strings (tab g) nd else []) /\
+    g_jobs g' = g_jobs g ++ (if cf_async (g_cf g) then [] else map JSend (flush_strings (tab g) nd)).
+Proof. exact after_wake_outputs. Qed.
+
+(* ------------------------------------------------------------------ 2. life cycle of a desired value *)
+(* (a) set_child_value on a known child of a sleeping node, closed form: the value type must be an
+   int() spelling, the set message must validate for the GATEWAY's version (else Invalid at call
+   time), the child must have a slot (else ValueError), the message must validate for the NODE's
+   version (an additional refusal); then Some v is stored under the INTEGER key, nothing else *)
+Theorem C08_set_child_value_sleeping :
+  forall orc g sid cid vt v mt a nd,
+    get_node g sid = Some nd -> zhas cid (n_children nd) = true -> sleeping nd = true ->
+    set_child_value orc g sid cid vt v mt a =
+    match vt_int vt with
+    | None => Raise ValueError
+    | Some vti =>
+        if gw_accepts orc g (n_id nd) cid vti v then
+          match zassoc cid (n_new nd) with
+          | None => Raise ValueError
+          | Some dv => if node_accepts orc nd cid vti v then Ok (put_node g (store_desired nd cid vti v dv))
+                       else Raise VolInvalid
+          end
+        else Raise VolInvalid
+    end.
+Proof. exact set_child_value_sleeping. Qed.
+
+Theorem C08_store_desired_facts :
+  forall nd cid vti v dv, zassoc cid (n_new nd) = Some dv ->
+    let nd' := store_desired nd cid vti v dv in
+    desired nd' cid vti = Some v /\
+    (forall c vt, (c, vt) <> (cid, vti) -> desired nd' c vt = desired nd c vt) /\
+    sleeping nd' = true /\ n_queue nd' = n_queue nd /\ n_children nd' = n_children nd /\ n_id nd' = n_id nd /\
+    map fst (n_new nd') = map fst (n_new nd).
+Proof. exact store_desired_facts. Qed.
+
+(* value types given as "2" and as 2 are the same key: the whole call behaves identically *)
+Theorem C08_vt_key_normalised :
+  forall orc g sid cid vt1 vt2 v mt a, vt_int vt1 = vt_int vt2 ->
+    set_child_value orc g sid cid vt1 v mt a = set_child_value orc g sid cid vt2 v mt a.
+Proof. exact vt_key_normalised. Qed.
+Theorem C08_vt_key_str_int : forall z, vt_int (VtStr (print z)) = vt_int (VtInt z).
+Proof. exact vt_int_str. Qed.
+
+(* (b) an accepted report (set message from a known child): the node becomes update_child_value,
+   whose entry (c, vt) is None (confirmed), no other desired entry is touched, the value is
+   recorded as reported *)
+Theorem C08_handle_set_known :
+  forall g m nd,
+    get_node g (m_node m) = Some nd -> zhas (m_child m) (n_children nd) = true ->
+    wire_ok (m_payload m) = true -> has_member (vt_internal_members (tab g)) "I_REBOOT" = true ->
+    exists reply,
+      handle_set g m =
+      Ok (alert (put_node g (update_child_value nd (m_child m) (m_sub m) (m_payload m))) m, reply) /\
+      (n_reboot nd = false -> reply = None).
+Proof. exact handle_set_known. Qed.
+
+Theorem C08_update_child_value_facts :
+  forall nd c vt p, zhas c (n_children nd) = true ->
+    let nd' := update_child_value nd c vt p in
+    desired nd' c vt = None /\
+    (forall c' vt', (c', vt') <> (c, vt) -> desired nd' c' vt' = desired nd c' vt') /\
+    reported nd' c vt = Some (PS p) /\
+    n_queue nd' = n_queue nd /\ n_id nd' = n_id nd /\ sleeping nd' = sleeping nd /\
+    map fst (n_new nd') = map fst (n_new nd).
+Proof. exact update_child_value_facts. Qed.
+
+(* the same at the level of a step of the machine (arriving line / pumped line) *)
+Theorem C08_report_clears_desired :
+  forall orc clock g o n c vt nd,
+    cfg_ok (g_cf g) -> Inv orc g -> QInv g -> op_ok o ->
+    op_cause orc g o = CReport n c vt -> get_node g n = Some nd -> zhas c (n_children nd) = true ->
+    exists nd', get_node (step orc clock g o) n = Some nd' /\ desired nd' c vt = None /\
+                has_reported nd' c vt /\
+                (forall c' vt', (c', vt') <> (c, vt) -> desired nd' c' vt' = desired nd c' vt').
+Proof. exact report_clears_desired. Qed.
+
+(* reading of the two causes: a step processes an accepted set message from (n, c, vt) / is the
+   controller call for (n, c, int(vt')) *)
+Theorem C08_cause_report :
+  forall orc g o n c vt, cfg_ok (g_cf g) ->
+    (op_cause orc g o = CReport n c vt <->
+     exists l m, processed g o = Some l /\ decode l = Some m /\ gvalidate orc g m = true /\
+                 m_type m = 1 /\ m_node m = n /\ m_child m = c /\ m_sub m = vt).
+Proof. exact op_cause_report. Qed.
+Theorem C08_cause_desire :
+  forall orc g o n c vt,
+    op_cause orc g o = CDesire n c vt <->
+    exists vt' v mt a, o = SetChild n c vt' v mt a /\ vt_int vt' = Some vt.
+Proof. exact op_cause_desire. Qed.
+
+(* (c) between (a) and the next (b): after an accepted call, in EVERY state reached by a history
+   without a report of (n, c, vt) and without a new call for it: the value is still pending,
+   requests are answered with it, the wake-up flush succeeds and - provided the node has
+   reported that value type - contains the set command *)
+Theorem C08_desired_resent_until_reported :
+  forall orc clock g n c vt vti v mt a g1 nd ops,
+    cfg_ok (g_cf g) -> Inv orc g -> QInv g -> CInv g -> Forall op_ok ops ->
+    get_node g n = Some nd -> zhas c (n_children nd) = true -> sleeping nd = true ->
+    set_child_value orc g n c vt v mt a = Ok g1 -> vt_int vt = Some vti ->
+    quiet orc clock (fun cz => cz = CReport n c vti \/ cz = CDesire n c vti) g1 ops ->
+    let g2 := run orc clock g1 ops in
+    exists nd2, get_node g2 n = Some nd2 /\ sleeping nd2 = true /\ zhas c (n_children nd2) = true /\
+      desired nd2 c vti = Some v /\
+      get_desired_value nd2 c vti = Some v /\
+      handle_smartsleep orc g2 nd2 = Ok (flushed g2 nd2) /\
+      (has_reported nd2 c vti -> In (encode (set_msg_of (tab g) n c vti v)) (flush_strings (tab g2) nd2)).
+Proof. exact desired_resent_until_reported. Qed.
+
+(* ... a desired value for a value type the node never reported is NOT sent (the property says
+   "has reported before") *)
+Theorem C08_unreported_not_sent :
+  forall t nd c vt,
+    (forall k ch, In (k, ch) (n_children nd) -> c_id ch = c -> zhas vt (c_values ch) = false) ->
+    forall m, In m (desired_msgs t (init_smart_sleep nd)) -> ~ (m_child m = c /\ m_sub m = vt).
+Proof. exact unreported_not_in_flush. Qed.
+
+(* ... and never after (b): once the entry is None it stays None, and no flush contains a set
+   command for (c, vt), in every state reached without a new call for (n, c, vt) *)
+Theorem C08_cleared_until_new_desire :
+  forall orc clock g n c vt nd ops,
+    cfg_ok (g_cf g) -> Inv orc g -> QInv g -> Forall op_ok ops ->
+    get_node g n = Some nd -> desired nd c vt = None ->
+    quiet orc clock (fun cz => cz = CDesire n c vt) g ops ->
+    let g2 := run orc clock g ops in
+    exists nd2, get_node g2 n = Some nd2 /\ desired nd2 c vt = None /\
+      handle_smartsleep orc g2 nd2 = Ok (flushed g2 nd2) /\
+      forall m, In m (desired_msgs (tab g2) (init_smart_sleep nd2)) -> ~ (m_child m = c /\ m_sub m = vt).
+Proof. exact cleared_until_new_desire. Qed.
+
+(* every set command of a flush IS a pending desired value *)
+Theorem C08_flush_sets_are_desired :
+  forall t nd m, In m (desired_msgs t (init_smart_sleep nd)) ->
+    exists v, desired nd (m_child m) (m_sub m) = Some v /\ m = set_msg_of t (n_id nd) (m_child m) (m_sub m) v.
+Proof. exact flush_sets_are_desired. Qed.
+
+(* (d) value requests: Sensor.get_desired_value is total; the desired value while one is pending,
+   else the reported value, else nothing *)
+Theorem C08_get_desired_value_closed :
+  forall nd c vt,
+    get_desired_value nd c vt =
+    match zassoc c (n_children nd) with
+    | None => None
+    | Some ch => match desired nd c vt with Some v => Some v | None => zassoc vt (c_values ch) end
+    end.
+Proof. exact get_desired_value_closed. Qed.
+
+Theorem C08_handle_req_known :
+  forall g m nd,
+    get_node g (m_node m) = Some nd -> zhas (m_child m) (n_children nd) = true -> wire_ok (m_payload m) = true ->
+    handle_req g m = Ok (g, option_map (req_reply (tab g) m) (get_desired_value nd (m_child m) (m_sub m))).
+Proof. exact handle_req_known. Qed.
+
+(* through the dispatcher, for a SLEEPING node: the reply is withheld (appended to the queue) *)
+Theorem C08_req_logic_sleeping :
+  forall orc clock g l m nd, cfg_ok (g_cf g) ->
+    decode l = Some m -> gvalidate orc g m = true -> m_type m = 2 ->
+    get_node g (m_node m) = Some nd -> zhas (m_child m) (n_children nd) = true -> sleeping nd = true ->
+    logic orc clock g l =
+    Ok (match get_desired_value nd (m_child m) (m_sub m) with
+        | Some v => enqueue g nd (encode (req_reply (tab g) m v))
+        | None => g
+        end, None).
+Proof. exact req_logic_sleeping. Qed.
+
+(* ------------------------------------------------------------------ 3. accepted implies deliverable *)
+(* after any accepted set_child_value and any later history, the flush of every node returns Ok
+   (with the closed form above) and every line is processed without raising; nothing is assumed
+   about the node's own protocol version n_pver (equal / older / never presented: it only enters
+   through node_accepts, an additional refusal at call time) *)
+Theorem C08_accepted_implies_deliverable :
+  forall orc clock g sid cid vt v mt a g1 ops,
+    cfg_ok (g_cf g) -> Inv orc g -> QInv g -> Forall op_ok ops ->
+    set_child_value orc g sid cid vt v mt a = Ok g1 ->
+    let g2 := run orc clock g1 ops in
+    (forall k nd, get_node g2 k = Some nd -> handle_smartsleep orc g2 nd = Ok (flushed g2 nd)) /\
+    (forall l, exists g3 r, logic orc clock g2 l = Ok (g3, r)).
+Proof. exact accepted_implies_deliverable. Qed.
+
+(* a value that is not valid for the gateway's version is refused at call time: Invalid, state
+   unchanged (the step only records the exception) *)
+Theorem C08_refused_at_call_time :
+  forall orc clock g sid cid vt vti v mt a nd,
+    get_node g sid = Some nd -> zhas cid (n_children nd) = true -> sleeping nd = true ->
+    vt_int vt = Some vti -> gw_accepts orc g (n_id nd) cid vti v = false ->
+    set_child_value orc g sid cid vt v mt a = Raise VolInvalid /\
+    step orc clock g (SetChild sid cid vt v mt a) = emit g (ERaise VolInvalid).
+Proof. exact refused_at_call_time. Qed.
+
+(* ------------------------------------------------------------------ 4. late children *)
+(* a child presented to a known node (sleeping or not) is appended; the desired state is untouched:
+   a child presented after the first wake-up has no slot *)
+Theorem C08_presentation_late_child :
+  forall orc g m nd, m_child m <> system_child_id ->
+    get_node g (m_node m) = Some nd -> zhas (m_child m) (n_children nd) = false ->
+    handle_presentation orc g m =
+    Ok (alert (put_node g (with_children nd (n_children nd ++ [(m_child m, mkChild (m_child m) (m_sub m) (m_payload m) [])]))) m,
+        Some m).
+Proof. exact presentation_late_child. Qed.
+
+(* requests for it are answered from the reported values (no KeyError) *)
+Theorem C08_late_child_req :
+  forall nd c vt, zassoc c (n_new nd) = None -> get_desired_value nd c vt = reported nd c vt.
+Proof. exact late_child_req. Qed.
+
+(* the controller call for it is refused at call time (ValueError when the value itself is valid) *)
+Theorem C08_late_child_set_refused :
+  forall orc g sid cid vt v mt a nd,
+    get_node g sid = Some nd -> zhas cid (n_children nd) = true -> sleeping nd = true ->
+    zassoc cid (n_new nd) = None ->
+    exists e, set_child_value orc g sid cid vt v mt a = Raise e /\
+              (forall vti, vt_int vt = Some vti -> gw_accepts orc g (n_id nd) cid vti v = true -> e = ValueError).
+Proof. exact late_child_set_refused. Qed.
+
+(* at the next wake-up it gets its (empty) slot; existing slots keep place and content *)
+Theorem C08_late_child_gets_slot :
+  forall nd c, zhas c (n_children nd) = true -> zassoc c (n_new nd) = None ->
+    zassoc c (n_new (woken nd)) = Some [] /\
+    (forall c' dv, zassoc c' (n_new nd) = Some dv -> zassoc c' (n_new (woken nd)) = Some dv).
+Proof. exact late_child_gets_slot. Qed.
+
+(* ------------------------------------------------------------------ non-vacuity *)
+(* configurations and histories: Proofs/SleepExamples.v (2.2 gateway; ex_h1: node 1 and child 1
+   presented, value type 2 reported, first wake-up "1;255;3;0;32;500": node 1 sleeps) *)
+(* the life cycle: nothing at the first wake-up; the call is silent; the set command appears at
+   EVERY wake-up until the node reports the value type; none afterwards *)
+Example C08_example_lifecycle :
+  let run' := run ex_orc 0 (gw_init ex_cfA) in
+  g_log (run' ex_h1) = [] /\ sleeping (ex_node (run' ex_h1) 1) = true /\
+  g_log (run' (ex_h1 ++ [ex_set (VtInt 2) "1"])) = [] /\
+  desired (ex_node (run' (ex_h1 ++ [ex_set (VtInt 2) "1"])) 1) 1 2 = Some (PS (s2p "1")) /\
+  g_log (run' (ex_h1 ++ [ex_set (VtInt 2) "1"; ex_wake1])) = [ESend (ex_line "1;1;1;0;2;1")] /\
+  g_log (run' (ex_h1 ++ [ex_set (VtInt 2) "1"; ex_wake1; ex_wake1])) =
+    [ESend (ex_line "1;1;1;0;2;1"); ESend (ex_line "1;1;1;0;2;1")] /\
+  g_log (run' (ex_h1 ++ [ex_set (VtInt 2) "1"; ex_wake1; ex_R "1;1;1;0;2;1"; ex_wake1])) =
+    [ESend (ex_line "1;1;1;0;2;1")] /\
+  desired (ex_node (run' (ex_h1 ++ [ex_set (VtInt 2) "1"; ex_wake1; ex_R "1;1;1;0;2;1"])) 1) 1 2 = None.
+Proof. vm_compute. repeat split; reflexivity. Qed.
+
+(* the value type given as the string "2" behaves the same *)
+Example C08_example_vt_str :
+  run ex_orc 0 (gw_init ex_cfA) (ex_h1 ++ [ex_set (VtStr (s2p "2")) "1"; ex_wake1]) =
+  run ex_orc 0 (gw_init ex_cfA) (ex_h1 ++ [ex_set (VtInt 2) "1"; ex_wake1]).
+Proof. vm_compute. reflexivity. Qed.
+
+(* withheld replies leave oldest first, before the set commands; a request is answered with the
+   pending desired value *)
+Example C08_example_order :
+  g_log (run ex_orc 0 (gw_init ex_cfA)
+           (ex_h1 ++ [ex_R "1;1;2;0;2;"; ex_set (VtInt 2) "1"; ex_R "1;1;2;0;2;"; ex_wake1])) =
+  [ESend (ex_line "1;1;1;0;2;0"); ESend (ex_line "1;1;1;0;2;1"); ESend (ex_line "1;1;1;0;2;1")].
+Proof. vm_compute. reflexivity. Qed.
+
+(* threaded flavour: the burst is queued in that order *)
+Example C08_example_threaded :
+  let g := run ex_orc 0 (gw_init ex_cfT)
+             (ex_pumped (ex_h1 ++ [ex_R "1;1;2;0;2;"; ex_set (VtInt 2) "1"]) ++ [ex_wake1; Pump]) in
+  g_jobs g = [JSend (ex_line "1;1;1;0;2;0"); JSend (ex_line "1;1;1;0;2;1")] /\ g_log g = [].
+Proof. vm_compute. split; reflexivity. Qed.
+
+(* a desired value for a value type the node never reported (3) is stored but not sent *)
+Example C08_example_unreported :
+  let g := run ex_orc 0 (gw_init ex_cfA) (ex_h1 ++ [ex_set (VtInt 3) "50"; ex_wake1]) in
+  g_log g = [] /\ desired (ex_node g 1) 1 3 = Some (PS (s2p "50")).
+Proof. vm_compute. split; reflexivity. Qed.
+
+(* refused at call time (the D4 scenario): a node that presented protocol 1.4 on a 2.2 gateway,
+   value type 22: "1" is valid for 1.4 (V_HEATER_SW) but not for 2.2 (V_HVAC_SPEED): Invalid at the
+   call, nothing stored; "Auto" is valid for the gateway but not for the node: refused as well *)
+Example C08_example_refused :
+  let g := run ex_orc 0 (gw_init ex_cfA) [ex_R "1;255;0;0;17;1.4"; ex_R "1;1;0;0;3;"; ex_wake1] in
+  sleeping (ex_node g 1) = true /\
+  set_child_value ex_orc g 1 1 (VtInt 22) (PS (s2p "1")) None None = Raise VolInvalid /\
+  set_child_value ex_orc g 1 1 (VtInt 22) (PS (s2p "Auto")) None None = Raise VolInvalid /\
+  set_child_value ex_orc g 1 1 (VtStr (s2p "x")) (PS (s2p "1")) None None = Raise ValueError /\
+  g_sensors (step ex_orc 0 g (SetChild 1 1 (VtInt 22) (PS (s2p "1")) None None)) = g_sensors g.
+Proof. vm_compute. repeat split; reflexivity. Qed.
+
+(* a late child: presented after the first wake-up; request answered from the reported value, the
+   call refused with ValueError, a slot after the next wake-up, then the call is accepted *)
+Example C08_example_late_child :
+  let late := ex_h1 ++ [ex_R "1;2;0;0;3;"; ex_R "1;2;1;0;2;1"] in
+  let g := run ex_orc 0 (gw_init ex_cfA) late in
+  zassoc 2 (n_new (ex_node g 1)) = None /\
+  ex_node (step ex_orc 0 g (ex_R "1;2;2;0;2;")) 1 =
+    with_queue (ex_node g 1) [ex_line "1;2;1;0;2;1"] /\
+  set_child_value ex_orc g 1 2 (VtInt 2) (PS (s2p "0")) None None = Raise ValueError /\
+  (let g' := step ex_orc 0 g ex_wake1 in
+   zassoc 2 (n_new (ex_node g' 1)) = Some [] /\
+   is_ok (set_child_value ex_orc g' 1 2 (VtInt 2) (PS (s2p "0")) None None) = true).
+Proof. vm_compute. repeat split; reflexivity. Qed.
+
+(* observation (consistent with the property text, "has reported before"): a desired value for a
+   value type the node has never reported is accepted, never sent, and the node's FIRST report of
+   that type clears it - it is never delivered *)
+Example C08_example_unreported_never_delivered :
+  let g := run ex_orc 0 (gw_init ex_cfA)
+               (ex_h1 ++ [ex_set (VtInt 3) "50"; ex_wake1; ex_R "1;1;1;0;3;10"; ex_wake1]) in
+  g_log g = [] /\ desired (ex_node g 1) 1 3 = None /\ reported (ex_node g 1) 1 3 = Some (PS (s2p "10")).
+Proof. vm_compute. repeat split; reflexivity. Qed.
+
+(* the premises of C08_desired_resent_until_reported are satisfiable by a non-trivial history:
+   after the accepted call, a wake-up, a value request and a report of ANOTHER value type (3) *)
+Example C08_example_premises :
+  let g := run ex_orc 0 (gw_init ex_cfA) ex_h1 in
+  let ops := [ex_wake1; ex_R "1;1;2;0;2;"; ex_R "1;1;1;0;3;7"] in
+  cfg_ok (g_cf g) /\ sleeping (ex_node g 1) = true /\ zhas 1 (n_children (ex_node g 1)) = true /\
+  get_node g 1 = Some (ex_node g 1) /\
+  exists g1, set_child_value ex_orc g 1 1 (VtInt 2) (PS (s2p "1")) None None = Ok g1 /\
+             quiet ex_orc 0 (fun cz => cz = CReport 1 1 2 \/ cz = CDesire 1 1 2) g1 ops /\
+             has_reported (ex_node (run ex_orc 0 g1 ops) 1) 1 2.
+Proof.
+  split; [exists V22; split; reflexivity|]. split; [vm_compute; reflexivity|]. split; [vm_compute; reflexivity|].
+  split; [vm_compute; reflexivity|]. eexists. split; [vm_compute; reflexivity|]. split.
+  - vm_compute. repeat split; intros [H|H]; discriminate H.
+  - eexists. split; vm_compute; reflexivity.
+Qed.
+
+
+Print Assumptions C08_reachable_invariants.
+Print Assumptions C08_flush_strings_def.
+Print Assumptions C08_desired_msgs_def.
+Print Assumptions C08_desired_msgs_membership.
+Print Assumptions C08_flush_spec.
+Print Assumptions C08_flushed_fields.
+Print Assumptions C08_woken_fields.
+Print Assumptions C08_flush_children_rel.
+Print Assumptions C08_flush_children_closed.
+Print Assumptions C08_wake_logic.
+Print Assumptions C08_wake_outputs.
+Print Assumptions C08_set_child_value_sleeping.
+Print Assumptions C08_store_desired_facts.
+Print Assumptions C08_vt_key_normalised.
+Print Assumptions C08_vt_key_str_int.
+Print Assumptions C08_handle_set_known.
+Print Assumptions C08_update_child_value_facts.
+Print Assumptions C08_report_clears_desired.
+Print Assumptions C08_cause_report.
+Print Assumptions C08_cause_desire.
+Print Assumptions C08_desired_resent_until_reported.
+Print Assumptions C08_unreported_not_sent.
+Print Assumptions C08_cleared_until_new_desire.
+Print Assumptions C08_flush_sets_are_desired.
+Print Assumptions C08_get_desired_value_closed.
+Print Assumptions C08_handle_req_known.
+Print Assumptions C08_req_logic_sleeping.
+Print Assumptions C08_accepted_implies_deliverable.
+Print Assumptions C08_refused_at_call_time.
+Print Assumptions C08_presentation_late_child.
+Print Assumptions C08_late_child_req.
+Print Assumptions C08_late_child_set_refused.
+Print Assumptions C08_late_child_gets_slot.
